@@ -358,6 +358,46 @@ void h_segment_alloc_full(void) {
 }
 #endif
 
+#ifdef HARNESS_h_page_alloc_dispatch
+/* C16/C01/C03: _mi_segment_page_alloc / mi_segments_page_alloc choose the span length for every block size: the page kinds and lengths
+   are exactly the ones the page-start lemmas (C16.page_start: 1 slice for small, 8 slices for medium classes) assume, a large block
+   gets at least its own size, everything bigger or over-aligned goes to a dedicated huge segment with the alignment passed on; the
+   search is retried only after a segment was added, with the same length, and NULL is returned only when that failed. */
+static int n_find, n_roa, n_huge_call; static size_t find_slices, huge_size, huge_align; static bool find_differs, roa_failed;
+static mi_page_t DPAGE; static mi_segment_t* const DSEG = (mi_segment_t*)&S;
+mi_page_t* stub_find_and_allocate(size_t slice_count, mi_arena_id_t req_arena_id, mi_segments_tld_t* tld) {
+  if (n_find > 0 && slice_count != find_slices) find_differs = true;
+  n_find++; find_slices = slice_count;
+  return (n_find > 2 || nd_bool()) ? &DPAGE : NULL; }
+mi_segment_t* stub_reclaim_or_alloc(mi_heap_t* heap, size_t needed_slices, size_t block_size, mi_segments_tld_t* tld) {
+  n_roa++; CHECK(needed_slices == find_slices, "the new or adopted segment is asked to serve the same span length");
+  if (nd_bool()) { roa_failed = true; return NULL; } return DSEG; }
+mi_page_t* stub_huge_page_alloc(size_t size, size_t page_alignment, mi_arena_id_t req_arena_id, mi_segments_tld_t* tld) { n_huge_call++; huge_size = size; huge_align = page_alignment; return nd_bool() ? &DPAGE : NULL; }
+void stub_try_purge_noop(mi_segment_t* segment, bool force) { }
+mi_segment_t* stub_ptr_segment3(const void* p) { return DSEG; }
+void h_page_alloc_dispatch(void) {
+  static mi_heap_t hp; static mi_segments_tld_t stld;
+  size_t bs = nd_size(); ASSUME(bs >= 1 && bs <= ((size_t)1 << 40));
+  size_t al = nd_size(); ASSUME(al == 0 || (al > MI_BLOCK_ALIGNMENT_MAX && (al & (al - 1)) == 0 && al <= ((size_t)1 << 40)));
+  mi_page_t* pg = _mi_segment_page_alloc(&hp, bs, al, &stld);
+  if (al > MI_BLOCK_ALIGNMENT_MAX || bs > MI_LARGE_OBJ_SIZE_MAX) {
+    CHECK(n_huge_call == 1 && n_find == 0, "over-aligned or huge requests get a dedicated segment");
+    CHECK(huge_size == bs && huge_align == (al > MI_BLOCK_ALIGNMENT_MAX ? (al < MI_SEGMENT_SIZE ? MI_SEGMENT_SIZE : al) : al), "C03: size and alignment are passed on unchanged (alignment at least one segment)");
+    WITNESS("huge");
+  } else {
+    CHECK(n_huge_call == 0 && n_find >= 1, "regular sizes are served from segment spans");
+    size_t expect = (bs <= MI_SMALL_OBJ_SIZE_MAX ? 1 : bs <= MI_MEDIUM_OBJ_SIZE_MAX ? MI_MEDIUM_PAGE_SIZE / MI_SEGMENT_SLICE_SIZE : 0);
+    if (expect != 0) CHECK(find_slices == expect, "C16: small classes get one slice, medium classes eight (as the page-start lemmas assume)");
+    else { CHECK(find_slices * MI_SEGMENT_SLICE_SIZE >= bs && find_slices * MI_SEGMENT_SLICE_SIZE < bs + MI_MEDIUM_PAGE_SIZE, "C01: a large block gets a span of at least its size, rounded up by less than one medium page");
+           CHECK(find_slices <= MI_SLICES_PER_SEGMENT / 2 + MI_MEDIUM_PAGE_SIZE / MI_SEGMENT_SLICE_SIZE, "the span fits into a normal segment"); WITNESS("large"); }
+    CHECK(!find_differs, "every retry searches for the same span length");
+    CHECK(n_find == n_roa + (pg != NULL ? 1 : 0) || (pg == NULL && n_find == n_roa), "a retry happens exactly after a segment was added or adopted");
+    if (pg == NULL) CHECK(roa_failed, "C06: NULL only after neither a free span, an adoptable segment nor a new segment was available");
+    WITNESS("spans");
+  }
+}
+#endif
+
 #ifdef HARNESS_h_huge_geometry
 /* C03 (huge alignment through a dedicated segment and the extra slice entry) / C13 (prefix reset): the geometry that
    mi_segment_alloc -> mi_segment_os_alloc requests from the arena layer for a huge page with alignment 2^k >= MI_SEGMENT_ALIGN,
